@@ -413,9 +413,19 @@ def rw(run, p, E, rt):
     modes = []
     encs = []
     for n, mode, enc in oc:
-        ms = E._modes(mode, _mode_env(w))
+        ms = E._modes(mode, _mode_env(w), w)
         modes += ms
         encs.append(enc)
+    # the writer may hand the job to a helper of its module
+    for _c, ts, _k in p.calls(w):
+        for g, _ctx in ts:
+            if g.mod is w.mod and g is not w and g.cls is None:
+                for n, mode, enc in open_calls(p, g):
+                    ms = [m for m in E._modes(mode, _mode_env(g), g) if 'w' in m or 'a' in m]
+                    if ms:
+                        modes += ms
+                        encs.append(enc)
+                        oc = oc + [(n, mode, enc)]
     rb = p.method('FilesComparison', 'check_binary_file')
     rmodes = [m.value for n, m, e in open_calls_deep(p, rb) if isinstance(m, ast.Constant)]
     run.ob('C10-RW', '%s::%s::binary' % (w.rel, w.short), 'wb' in modes and rmodes and all(m == 'rb' for m in rmodes),
@@ -487,21 +497,48 @@ def _mode_env(f):
 
 
 def verbatim(run, p, rt):
-    run.rule('C10-VERBATIM', 'regeneration stores the actual result as it is: what _write_reference_result writes is its `result` parameter '
-                             'untransformed, and _write_reference_file passes on exactly what it read')
+    from ..pyeval import Interp, Obj, Unsupported, Raised, FakeFS, pure_sys
+    run.rule('C10-VERBATIM', 'regeneration stores the actual result as it is: _write_reference_result, evaluated on an in-memory file '
+                             'system, leaves in the reference file exactly the text or bytes it was given (unicode, CR/LF, no final '
+                             'newline, empty), whatever the stripping options say; _write_reference_file stores what a read of the '
+                             'actual file gives; nothing else is written')
     w = p.lookup_method(rt.qn, '_write_reference_result')
-    writes = [x for x in p.own_nodes(w) if isinstance(x, ast.Call) and isinstance(x.func, ast.Attribute) and x.func.attr == 'write']
-    reassigned = [s for s in p.own_nodes(w) if isinstance(s, (ast.Assign, ast.AugAssign)) and
-                  any(norm(t) == 'result' for t in (s.targets if isinstance(s, ast.Assign) else [s.target]))]
-    ok = len(writes) == 1 and writes[0].args and norm(writes[0].args[0]) == 'result' and not reassigned
-    run.ob('C10-VERBATIM', '%s::%s' % (w.rel, w.short), ok,
-           '_write_reference_result writes %s%s' % (norm(writes[0].args[0]) if writes and writes[0].args else '?',
-                                                    '' if not reassigned else ' after `%s`' % norm(reassigned[0])[:50]), fn=w,
-           node=reassigned[0] if reassigned else (writes[0] if writes else None))
     f = p.lookup_method(rt.qn, '_write_reference_file')
-    reads = [s for s in p.own_nodes(f) if isinstance(s, ast.Assign) and isinstance(s.value, ast.Call) and isinstance(s.value.func, ast.Attribute) and s.value.func.attr == 'read']
-    calls = [x for x in p.own_nodes(f) if isinstance(x, ast.Call) and norm(x.func) == 'self._write_reference_result']
-    ok2 = len(reads) == 1 and len(calls) == 1 and calls[0].args and norm(calls[0].args[0]) == norm(reads[0].targets[0]) and \
-        not [s for s in p.own_nodes(f) if isinstance(s, ast.Assign) and s is not reads[0] and any(norm(t) == norm(reads[0].targets[0]) for t in s.targets)]
-    run.ob('C10-VERBATIM', '%s::%s' % (f.rel, f.short), ok2, '_write_reference_file hands %s straight to _write_reference_result' % (norm(reads[0].targets[0]) if reads else '?'), fn=f)
-    run.floor('C10-VERBATIM', 2, 2)
+    texts = ['alpha\nbeta\n', 'no final newline', '', 'caf\u00e9 \u2192\n', '  padded  \n\n', 'cr\r\nlf\n']
+    blobs = [b'', b'\x00\xff\r\n\x1a', b'abc']
+    bad = []
+    n = 0
+
+    def evaluate(fn, args, kw, files):
+        fs = FakeFS(files)
+        I = Interp(p)
+        I.extra_names.update({'open': fs.open, 'os': fs.os(), 'sys': pure_sys()})
+        o = Obj(rt)
+        o.attrs.update(verbose=False, print_fn=None)
+        try:
+            I.call(fn, args, kw, selfobj=o)
+        except Raised as e:
+            return fs, 'raises %s' % e
+        except Unsupported as e:
+            raise AnalysisError('%s is not evaluable: %s' % (fn.short, e))
+        return fs, None
+    for content in texts + blobs:
+        binary = isinstance(content, bytes)
+        for strip in (False, True):
+            fs, err = evaluate(w, [content, '/ref/r.out'], {'binary': binary, 'lstrip': strip, 'rstrip': strip}, {})
+            n += 1
+            if err or fs.written != {'/ref/r.out': content}:
+                bad.append(('result %r (binary=%s, strip=%s)' % (content, binary, strip), err or fs.written))
+    run.ob('C10-VERBATIM', '%s::%s' % (w.rel, w.short), not bad,
+           '_write_reference_result over %d results%s' % (n, '' if not bad else ': %s gives %r' % bad[0]), fn=w)
+    bad2 = []
+    for content in texts + blobs:
+        binary = isinstance(content, bytes)
+        fs, err = evaluate(f, ['/w/actual.out', '/ref/r.out'], {'binary': binary}, {'/w/actual.out': content})
+        n += 1
+        want = content if binary else content.replace('\r\n', '\n').replace('\r', '\n')       # what a text-mode read gives
+        if err or fs.written != {'/ref/r.out': want}:
+            bad2.append(('actual file %r (binary=%s)' % (content, binary), err or fs.written))
+    run.ob('C10-VERBATIM', '%s::%s' % (f.rel, f.short), not bad2,
+           '_write_reference_file stores what it read%s' % ('' if not bad2 else ': %s gives %r' % bad2[0]), fn=f)
+    run.floor('C10-VERBATIM', n, 20)
